@@ -35,6 +35,7 @@ def minimise(mod, sc, ck, deadline):
       try:
         seams.set_policy(None)
         seams.set_alloc("NATIVE")
+        seams.reset_counters()  # allocation and launch counters key the GARBAGE / PERM streams: every run starts them from zero
         r = mod.run(cand)
       except Exception:
         continue
@@ -102,6 +103,7 @@ def main():
         out.write(_jd({"start": idx, "scenario": sc}) + "\n")
       seams.set_policy(None)
       seams.set_alloc("NATIVE")
+      seams.reset_counters()  # a run must not depend on how many allocations / launches earlier runs of the same interpreter made
       r = mod.run(sc)
       res.update(r)
       res["status"] = "violation" if r.get("violations") else r.get("status", "ok")
